@@ -94,7 +94,7 @@ def deserialize_problem_contract(case):
     if ok:
         env, data, idx = log[0][1]
         check("under-the-given-height-and-width", isinstance(env, VObj) and And(attr(env, "height") == h, attr(env, "width") == w))
-        check("about-the-whole-text-from-index-0", data is text and idx == 0)
+        check("about-the-whole-text-from-index-0", (data is text or (isinstance(data, (str, SStr)) and data == text)) and idx == 0)
     if case.answer == "none":
         check("None-is-passed-on", And(not o.raised, o.value is None))
     elif case.answer == "one":
